@@ -74,6 +74,10 @@ def sym_array(x, *a, **kw):
     return _np.array(x, *a, **kw)
 
 
+sym_array.__name__ = "array"       # Representation.repr_ndarray prints `array.__name__`
+sym_scalar.__name__ = "scalar"
+
+
 def sym_to_float(x, /):
     if isinstance(x, SymFloat):
         return x
